@@ -119,8 +119,9 @@ Prod(names, fs) ==   \* all functions name -> choice
        {Put(g, x, c) : g \in Prod(names \ {x}, fs), c \in FileChoices(fs[x])}
 
 (* When several files are dirty at once the full product explodes (a change that drops an fsync  *)
-(* leaves whole files dirty).  Beyond ProdCap combinations the images are: every choice for ONE  *)
-(* file at a time, the other files either losing everything un-fsynced or keeping everything.   *)
+(* leaves whole files dirty).  Beyond ProdCap combinations the images are: every STRUCTURED      *)
+(* choice (prefixes, suffixes, singletons, all-but-one, none, all) for ONE file at a time, the   *)
+(* other files either losing everything un-fsynced or keeping everything.                        *)
 Extremes(f) == { [len |-> f.vol, keep |-> {c \in f.dirty : c < f.vol}],
                  [len |-> IF f.vol <= f.dur THEN f.vol ELSE f.dur, keep |-> {}] }
 RECURSIVE ExtProd(_, _)
@@ -134,8 +135,10 @@ ProdSize(names, fs) ==
   ELSE LET x == CHOOSE y \in names : TRUE
            rest == ProdSize(names \ {x}, fs)
        IN IF rest > ProdCap THEN rest ELSE rest * Cardinality(FileChoices(fs[x]))
+FileChoicesS(f) ==     \* structured subsets only (no exhaustive / random part)
+  UNION { { [len |-> L, keep |-> k] : k \in Structured({c \in f.dirty : c < L}) } : L \in LenChoices(f) }
 Mixed(names, fs) ==
-  UNION { { Put(e, x, c) : c \in FileChoices(fs[x]), e \in ExtProd(names \ {x}, fs) } : x \in names }
+  UNION { { Put(e, x, c) : c \in FileChoicesS(fs[x]), e \in ExtProd(names \ {x}, fs) } : x \in names }
 Images(names, fs) == IF ProdSize(names, fs) <= ProdCap THEN Prod(names, fs) ELSE Mixed(names, fs)
 
 (* A metadata transaction in flight needs no extra choice: "not committed" is the *)
